@@ -521,9 +521,6 @@ impl Compiler {
     fn compile_for_in(&mut self, for_in: &ForInStatement) -> Result<(), JsError> {
         self.builder.set_span(for_in.span);
 
-        // Push scope
-        self.push_scope()?;
-
         // Compile the right side (object to iterate)
         let obj_reg = self.builder.alloc_register()?;
         self.compile_expression(&for_in.right, obj_reg)?;
@@ -593,18 +590,12 @@ impl Compiler {
         self.builder.free_register(iter_reg);
         self.builder.free_register(obj_reg);
 
-        // Pop scope
-        self.pop_scope();
-
         Ok(())
     }
 
     /// Compile a for-of statement
     fn compile_for_of(&mut self, for_of: &ForOfStatement) -> Result<(), JsError> {
         self.builder.set_span(for_of.span);
-
-        // Push scope
-        self.push_scope()?;
 
         // Compile the right side (iterable)
         let obj_reg = self.builder.alloc_register()?;
@@ -721,9 +712,6 @@ impl Compiler {
         self.builder.free_register(result_reg);
         self.builder.free_register(iter_reg);
         self.builder.free_register(obj_reg);
-
-        // Pop scope
-        self.pop_scope();
 
         Ok(())
     }
